@@ -50,9 +50,12 @@ func (li *lenInterp) evalInt(e ast.Expr, s lenState) (int64, bool) {
 	if c, ok := constInt(li.info, e); ok {
 		return c, true
 	}
-	if a := li.atoms(canon(e)); a != "" {
-		v, ok := s.v[a]
-		return v, ok
+	switch e.(type) {
+	case *ast.Ident, *ast.SelectorExpr:
+		if a := li.atoms(canon(e)); a != "" {
+			v, ok := s.v[a]
+			return v, ok
+		}
 	}
 	switch x := e.(type) {
 	case *ast.Ident:
@@ -109,7 +112,19 @@ func (li *lenInterp) evalInt(e ast.Expr, s lenState) (int64, bool) {
 			return a - b, true
 		case token.MUL:
 			return a * b, true
+		case token.QUO:
+			if b == 0 {
+				return 0, false
+			}
+			return a / b, true
+		case token.REM:
+			if b == 0 {
+				return 0, false
+			}
+			return a % b, true
 		}
+	case *ast.ParenExpr:
+		return li.evalInt(x.X, s)
 	case *ast.SelectorExpr:
 		v, ok := s.v[canon(x)]
 		return v, ok
@@ -255,6 +270,25 @@ func (li *lenInterp) stmt(st ast.Stmt, s lenState) []lenState {
 			if len(v.Lhs) != len(v.Rhs) {
 				// tuple assignment from a call: results unknown
 				delete(out.v, lhs)
+				continue
+			}
+			if v.Tok != token.ASSIGN && v.Tok != token.DEFINE {
+				old, ok1 := li.evalInt(l, s)
+				rv, ok2 := li.evalInt(v.Rhs[i], s)
+				if !ok1 || !ok2 {
+					delete(out.v, lhs)
+					continue
+				}
+				switch v.Tok {
+				case token.ADD_ASSIGN:
+					out.v[lhs] = old + rv
+				case token.SUB_ASSIGN:
+					out.v[lhs] = old - rv
+				case token.MUL_ASSIGN:
+					out.v[lhs] = old * rv
+				default:
+					delete(out.v, lhs)
+				}
 				continue
 			}
 			r := unparen(v.Rhs[i])
